@@ -3,6 +3,7 @@ CONSTANTS
   Variant = "dumpfirst"
   Level = 1
   MaxFaults = 1
+  Ext = 0
   Emit = FALSE
 INVARIANT InvAllOrNothing
 CHECK_DEADLOCK FALSE
